@@ -1,4 +1,5 @@
 #!/bin/bash
+export VERIF_SEEDED=1
 # tools/seedmatrix.sh [tier] : run every kept seeded change against the check(s) of its property
 # (meta.json caught_by) and write seeded/MATRIX.md.  /repo is restored after each run.
 T=${1:-quick}
